@@ -1089,6 +1089,23 @@ func replaySketch(beh []SkStep, cfg *SketchCfg) (mm *SkMismatch) {
 			if cur.Op != "Read" {
 				wB.apply(cur)
 			}
+			// and a FRESH execution of the prefix without any read, compared right now: a read that leaves hidden
+			// state wrong is seen at the step where it first matters, even if a later mutation would heal it
+			if len(beh) <= 6 || i%5 == 4 || i == len(beh)-2 {
+				wF := newSketchWorld(cfg)
+				for j := 0; j <= i; j++ {
+					if beh[j].Ev.Op != "Read" {
+						wF.apply(&beh[j].Ev)
+					}
+				}
+				for s := range w.sk {
+					a, b := snapshot(w.sk[s]), snapshot(wF.sk[s])
+					if !snapEqualMode(a, b, opq(s)) {
+						tags["aspect"] = "pure"
+						return &SkMismatch{Step: step, Slot: s + 1, Aspect: "pure", What: fmt.Sprintf("slot %d: after the same mutations, an execution interleaved with read-only calls answers differently from one without any:\nwith reads:    %s\nwithout reads: %s", s+1, a, b), Tags: tags}
+					}
+				}
+			}
 		}
 		if asp["clear"] {
 			// C15: second world replaces the cleared object by a brand-new one
